@@ -1,5 +1,6 @@
 import AtreeProofs.WorldOk
-import AtreeProofs.World.OpsArr2
+import AtreeProofs.World.OpsMisc
+import AtreeProofs.World.OkScenario
 /-
   C10 — THE GLOBAL INVARIANT of nested containers (`WorldOk`, AtreeProofs/WorldOk.lean) is kept by
   every operation of the World model, and the list-level facts about `Arr.set / insert / remove /
@@ -7,12 +8,17 @@ import AtreeProofs.World.OpsArr2
   theorems of `Props/C10.lean` — are theorems.  PROPERTY THEOREMS.
 
   Hypotheses shared by the operation theorems (besides `WorldOk` itself):
-  * `HandleOk w p` — the mutation goes through a CURRENT handle (obtained on insertion, by lookup,
-    by mutable iteration; hereditarily up to the root).  Mutating through any other handle is
-    finding F2 / F2b.
+  * `HandleOk w p` — the mutation goes through a CURRENT handle (obtained on creation, on insertion,
+    by lookup, by mutable iteration; hereditarily up to the root).  Mutating through any other
+    handle is finding F2 / F2b, and genuinely breaks the invariant (`stale_handle_breaks`).
   * `WValOk w p lim v` — the value stored is a plain value that fits the slot, or a live container
     that is referenced nowhere (a container value may be inserted only once), is not the target or
     one of the containers the target is nested in, and whose wrapped reference fits the slot.
+  * for maps: the key is a proper key of the target (`KeyOk`).
+  Every operation theorem concludes: `WorldOk` afterwards; the counter never decreases; the
+  list-level result in the target (`InsertedAt`, `SetAt`, `RemovedAt`, `MapSetAt`, `MapRemovedAt`,
+  including "the container handed back is standalone, unreferenced, same data, same value ID");
+  the handle used stays current; no other container's content changes (`SigFrame`).
 -/
 namespace Atree.C10W
 open Atree Gen World
@@ -49,7 +55,7 @@ theorem set_refines_ref (T : Nat) (hT : legalThreshold T = true) (a : Arr) (c : 
 /-- INLINED ROOT with room (its size plus one element within the inline limit stays within
     `maxThr T`; the inline budget of the parent slot guarantees it): `Arr.insert` refines
     `List.insertIdx`, the root stays ONE inlined slab, keeps its ID and type.  Without room the
-    model (like the Go code) lets the inlined root split: `inlined_root_splits`. -/
+    model (like the Go code) lets the inlined root split: `inlined_root_can_split`. -/
 theorem insert_refines_inlined (T : Nat) (hT : legalThreshold T = true) (a : Arr) (c : Ctx) (i : Nat) (e : Elem)
     (he : ElemOk T e) (h : ArrInvInl T a c.ctr) (hroom : a.rootHdr.size + maxInlineArr T ≤ maxThr T)
     (hcount : a.count < maxArrayElementCount) (hi : i ≤ a.toList.length) :
@@ -85,41 +91,335 @@ theorem inlined_root_can_split :
      | .ok (a', _) => some (a'.d, a'.isInlined)
      | .error _ => none) = some (1, false) := inlined_root_splits
 
+/-- the map core for reference values: `OMap.set` of a value within the inline limit of its key
+    (e.g. a reference to a child) has the zipper effect `SetEffect` with the value AS IT IS, keeps
+    `MapInv` and the root ID (`OSetPost`), unless the collision limit refuses a new key. -/
+theorem map_set_refines_ref (T : Nat) (hT : legalThreshold T = true) (D : DigestFn 4) (cfg : MCfg) (m : OMap 3)
+    (hcfg : CfgOk cfg T m) (h : MapInv T D m) (k : MKey) (hk : KeyOk T 4 D k) (v : Elem) (r : SlabID)
+    (hr : v.pay = .ref r) (h1 : 1 ≤ v.size) (h2 : v.size ≤ maxInlineMapValue T k.size) (c : Ctx) :
+    (TLimited cfg m.d m.root k → m.set cfg k v c = .error .collisionLimit) ∧
+    (¬ TLimited cfg m.d m.root k → ∃ old m' c', m.set cfg k v c = .ok (old, m', c') ∧
+      OSetPost T D cfg m m' k v old c c' ∧ (k, v) ∈ m'.toList) := by
+  obtain ⟨s1, s2⟩ := OMap.set_spec_ref hT hcfg h hk (⟨h1, Or.inr h2⟩ : ValueOkR T k.size v) c
+  refine ⟨s1, fun hl => ?_⟩
+  obtain ⟨old, m', c', heq, hp⟩ := s2 hl
+  exact ⟨old, m', c', heq, hp, hp.mem_ref r hr⟩
+
 /-! ### 2. The notification re-establishes the invariant -/
 
-/-- A notification from a container `y` whose parent slot is out of date (it has just been
-    mutated), issued through a current handle, re-establishes the global invariant; it only
-    changes `y` in form and containers `y` is nested in (`NFrame`: same signatures everywhere,
-    containers of rank ≥ rank `y` untouched, `y` keeps its data), and never lowers the counter. -/
+/-- THE MAIN INDUCTION.  A notification from a container `y` whose parent slot is out of date (it has
+    just been mutated: `WorldOkGen … (some y)`), issued through a current handle, re-establishes the
+    global invariant.  It changes no signature (kind / keys / payloads) of any container, leaves
+    every container that is not above `y` untouched, keeps the data and the value ID of `y`, keeps
+    every current handle current, and never lowers the counter. -/
 theorem notify_restores (D : SlabID → DigestFn 4) (rank : SlabID → Nat) (fuel : Nat) (w : World) (y : SlabID)
     (cx : Ctx) (w' : World) (cx' : Ctx)
     (H : WorldOkGen D rank (some y) (fun _ => False) w cx.ctr) (hh : HandleOk w y)
     (h : notifyParent fuel w y cx = .ok (w', cx')) :
-    WorldOkGen D rank none (fun _ => False) w' cx'.ctr ∧ NFrame rank w w' y ∧ cx.ctr ≤ cx'.ctr :=
-  notify_ok D rank (fun _ => False) fuel w y cx w' cx' H hh (fun z hz _ => absurd hz id) h
+    WorldOkGen D rank none (fun _ => False) w' cx'.ctr ∧ cx.ctr ≤ cx'.ctr ∧ w'.T = w.T ∧
+      (∀ q, (w'.cont? q).map Cont.sig = (w.cont? q).map Cont.sig) ∧
+      (∀ z, z ≠ y → rank y ≤ rank z → w'.cont? z = w.cont? z) ∧
+      (∀ c, w.cont? y = some c → ∃ c', w'.cont? y = some c' ∧ c'.vid = c.vid ∧ c'.storedElems = c.storedElems) ∧
+      (∀ z, HandleOk w z → HandleOk w' z) := by
+  obtain ⟨H3, F3, hc⟩ := notify_ok D rank (fun _ => False) fuel w y cx w' cx' H hh (fun z hz _ => absurd hz id) h
+  refine ⟨H3, hc, F3.T, F3.sig.sig, F3.above, ?_, fun z hz => hz.transfer (fun q x => (F3.sig.holds_iff q x).mp) F3.cur⟩
+  intro c hcy
+  have := F3.self
+  rw [hcy] at this
+  obtain ⟨c', hc', hsd⟩ := this.get_some
+  exact ⟨c', hc', hsd.vid, hsd.storedElems⟩
 
-/-! ### 3. The operations keep `WorldOk` -/
+/-! ### 3. What `WorldOk` contains -/
 
-/-- `Array.Insert` through a current handle keeps the global invariant; the target holds the
-    list-level result; its handle stays current. -/
+theorem worldOk_idsOk {D : SlabID → DigestFn 4} {w : World} {ctr : Nat} (H : WorldOk D w ctr) : World.IdsOk w := by
+  obtain ⟨_, H0⟩ := H; exact H0.ids
+
+/-- `ElemSync` (AtreeProofs/WorldInv.lean) is part of `WorldOk` -/
+theorem worldOk_elemSync {D : SlabID → DigestFn 4} {w : World} {ctr : Nat} (H : WorldOk D w ctr) : ElemSync w := by
+  obtain ⟨_, H0⟩ := H
+  intro p pc hp e he x c hx hc
+  rw [← Cont.slots_map_snd w.T] at he
+  obtain ⟨le, hle, rfl⟩ := List.mem_map.mp he
+  obtain ⟨wr, _, h2, _, _⟩ := H0.slots p pc hp le hle x c hx hc
+  exact ⟨wr, (h2 (by intro h; cases h)).1⟩
+
+/-- `MutIdxOk` (AtreeProofs/WorldInv.lean) is part of `WorldOk` -/
+theorem worldOk_mutIdxOk {D : SlabID → DigestFn 4} {w : World} {ctr : Nat} (H : WorldOk D w ctr) : MutIdxOk w := by
+  obtain ⟨_, H0⟩ := H
+  intro p a hp x i hi
+  have := H0.mutIdx p a hp x i hi id
+  rw [Cont.pays, Cont.storedElems, List.getElem?_map] at this
+  cases he : a.toList[i]? with
+  | none => rw [he] at this; cases this
+  | some e =>
+    rw [he] at this
+    exact ⟨e, rfl, by simpa using this⟩
+
+/-- every container is structurally valid in its form -/
+theorem worldOk_contOk {D : SlabID → DigestFn 4} {w : World} {ctr : Nat} (H : WorldOk D w ctr) (x : SlabID) (c : Cont)
+    (hc : w.cont? x = some c) : ContOk w.T (D x) ctr c ∧ c.vid = x := by
+  obtain ⟨_, H0⟩ := H; exact ⟨H0.conts x c hc, H0.ids x c hc⟩
+
+/-- "A child is stored inline in its parent exactly when it occupies one slab that fits the parent's
+    per-element limit": every element that refers to a live container has the size of that
+    container's current form behind `wrap` wrappers, and the container is inline exactly when it is
+    inlinable within the slot limit minus the wrappers. -/
+theorem worldOk_inline_iff_fits {D : SlabID → DigestFn 4} {w : World} {ctr : Nat} (H : WorldOk D w ctr)
+    (p : SlabID) (pc : Cont) (hp : w.cont? p = some pc) (lim : Nat) (e : Elem) (hle : (lim, e) ∈ pc.slots w.T)
+    (x : SlabID) (c : Cont) (hx : e.pay = .ref x) (hc : w.cont? x = some c) :
+    ∃ wrap, slabIDStorableSize + 2 * wrap ≤ lim ∧ e.size = slotSize c wrap ∧
+      c.isInlined = c.inlinable (lim - 2 * wrap) := by
+  obtain ⟨_, H0⟩ := H
+  obtain ⟨wr, h1, h2, _, _⟩ := H0.slots p pc hp (lim, e) hle x c hx hc
+  obtain ⟨a, b⟩ := h2 (by intro h; cases h)
+  exact ⟨wr, h1, a, b⟩
+
+/-- an inlined container is referenced by exactly one element of one live container -/
+theorem worldOk_inlined_referenced_once {D : SlabID → DigestFn 4} {w : World} {ctr : Nat} (H : WorldOk D w ctr)
+    (x : SlabID) (c : Cont) (hc : w.cont? x = some c) (hi : c.isInlined = true) :
+    (∃ p, Holds w p x) ∧
+    ∀ p p' pc pc' (i j : Nat), w.cont? p = some pc → w.cont? p' = some pc' →
+      pc.pays[i]? = some (Pay.ref x) → pc'.pays[j]? = some (Pay.ref x) → p = p' ∧ i = j := by
+  obtain ⟨_, H0⟩ := H
+  exact ⟨H0.inlRef x c hc hi id,
+    fun p p' pc pc' i j h1 h2 h3 h4 => H0.unique p p' pc pc' i j x h1 h2 h3 h4 (by rw [hc]; rfl)⟩
+
+/-! ### 4. The operations keep `WorldOk` -/
+
+/-- a new standalone array: fresh value ID, empty, its handle is current -/
+theorem worldOk_newArr (D : SlabID → DigestFn 4) (w : World) (ty : Nat) (cx : Ctx) (H : WorldOk D w cx.ctr) :
+    WorldOk D (w.newArr ty cx).2.1 (w.newArr ty cx).2.2.ctr ∧ (w.newArr ty cx).2.2.ctr = cx.ctr + 1 ∧
+      w.cont? (w.newArr ty cx).1 = none ∧
+      (∃ a, (w.newArr ty cx).2.1.cont? (w.newArr ty cx).1 = some (.arr a) ∧ a.toList = [] ∧ a.isInlined = false) ∧
+      (∀ z, z ≠ (w.newArr ty cx).1 → (w.newArr ty cx).2.1.cont? z = w.cont? z) ∧
+      HandleOk (w.newArr ty cx).2.1 (w.newArr ty cx).1 :=
+  newArr_ok H
+
+theorem worldOk_newMap (D : SlabID → DigestFn 4) (w : World) (ty seed : Nat) (cx : Ctx) (H : WorldOk D w cx.ctr) :
+    WorldOk D (w.newMap ty seed cx).2.1 (w.newMap ty seed cx).2.2.ctr ∧ (w.newMap ty seed cx).2.2.ctr = cx.ctr + 1 ∧
+      w.cont? (w.newMap ty seed cx).1 = none ∧
+      (∃ m, (w.newMap ty seed cx).2.1.cont? (w.newMap ty seed cx).1 = some (.map m) ∧ m.toList = [] ∧ m.isInlined = false) ∧
+      (∀ z, z ≠ (w.newMap ty seed cx).1 → (w.newMap ty seed cx).2.1.cont? z = w.cont? z) ∧
+      HandleOk (w.newMap ty seed cx).2.1 (w.newMap ty seed cx).1 :=
+  newMap_ok H
+
+/-- the empty world satisfies the invariant (so every world built by the operations from it does) -/
+theorem worldOk_new (D : SlabID → DigestFn 4) (T addr ctr : Nat) (hT : legalThreshold T = true) :
+    WorldOk D { T := T, addr := addr } ctr := by
+  refine ⟨fun _ => 0, hT, ?_, ?_, ?_, ?_, ?_, ?_, ?_, ?_, ?_, ?_, ?_, ?_, ?_⟩
+  all_goals first
+    | (intro a b hh; cases hh; done)
+    | (intro a b c hh; cases hh; done)
+    | (intro a b hh; simp [World.cont?, AList.find?] at hh; done)
+    | (intro a b hh hx; obtain ⟨pc, hpc, _⟩ := hh; cases hpc; done)
+    | (intro a b c d e f g hh; cases hh; done)
+    | skip
+  all_goals first
+    | (intro p pc hp; cases hp; done)
+    | (intro p a hp; cases hp; done)
+    | (intro x hi hx; cases hx; done)
+    | (intro p x i hi; simp [World.idxOf, AList.find?] at hi; done)
+    | skip
+
+/-- `Array.Insert` through a current handle keeps the global invariant. -/
 theorem worldOk_arrInsert (D : SlabID → DigestFn 4) (w : World) (p : SlabID) (i : Nat) (v : WVal) (cx : Ctx)
     (w' : World) (cx' : Ctx) (H : WorldOk D w cx.ctr) (hh : HandleOk w p)
     (hv : WValOk w p (maxInlineArr w.T) v) (h : w.arrInsert p i v cx = .ok (w', cx')) :
-    WorldOk D w' cx'.ctr ∧ cx.ctr ≤ cx'.ctr ∧ InsertedAt w w' p i v ∧ HandleOk w' p :=
+    WorldOk D w' cx'.ctr ∧ cx.ctr ≤ cx'.ctr ∧ InsertedAt w w' p i v ∧ HandleOk w' p ∧ SigFrame w w' p :=
   arrInsert_ok H hh hv h
 
 /-- `Array.Set` -/
 theorem worldOk_arrSet (D : SlabID → DigestFn 4) (w : World) (p : SlabID) (i : Nat) (v : WVal) (cx : Ctx)
     (old : Elem) (w' : World) (cx' : Ctx) (H : WorldOk D w cx.ctr) (hh : HandleOk w p)
     (hv : WValOk w p (maxInlineArr w.T) v) (h : w.arrSet p i v cx = .ok (old, w', cx')) :
-    WorldOk D w' cx'.ctr ∧ cx.ctr ≤ cx'.ctr ∧ SetAt w w' p i v old ∧ HandleOk w' p :=
+    WorldOk D w' cx'.ctr ∧ cx.ctr ≤ cx'.ctr ∧ SetAt w w' p i v old ∧ HandleOk w' p ∧ SigFrame w w' p :=
   arrSet_ok H hh hv h
 
 /-- `Array.Remove` -/
 theorem worldOk_arrRemove (D : SlabID → DigestFn 4) (w : World) (p : SlabID) (i : Nat) (cx : Ctx)
     (old : Elem) (w' : World) (cx' : Ctx) (H : WorldOk D w cx.ctr) (hh : HandleOk w p)
     (h : w.arrRemove p i cx = .ok (old, w', cx')) :
-    WorldOk D w' cx'.ctr ∧ cx.ctr ≤ cx'.ctr ∧ RemovedAt w w' p i old ∧ HandleOk w' p :=
+    WorldOk D w' cx'.ctr ∧ cx.ctr ≤ cx'.ctr ∧ RemovedAt w w' p i old ∧ HandleOk w' p ∧ SigFrame w w' p :=
   arrRemove_ok H hh h
+
+/-- `OrderedMap.Set` -/
+theorem worldOk_mapSet (D : SlabID → DigestFn 4) (w : World) (p : SlabID) (k : MKey) (v : WVal) (cx : Ctx)
+    (old : Option Elem) (w' : World) (cx' : Ctx) (H : WorldOk D w cx.ctr) (hh : HandleOk w p)
+    (hk : KeyOk w.T 4 (D p) k) (hv : WValOk w p (maxInlineMapValue w.T k.size) v)
+    (h : w.mapSet p k v cx = .ok (old, w', cx')) :
+    WorldOk D w' cx'.ctr ∧ cx.ctr ≤ cx'.ctr ∧ MapSetAt w w' p k v old ∧ HandleOk w' p ∧ SigFrame w w' p :=
+  mapSet_ok H hh hk hv h
+
+/-- `OrderedMap.Remove` -/
+theorem worldOk_mapRemove (D : SlabID → DigestFn 4) (w : World) (p : SlabID) (k : MKey) (cx : Ctx)
+    (rk : MKey) (rv : Elem) (w' : World) (cx' : Ctx) (H : WorldOk D w cx.ctr) (hh : HandleOk w p)
+    (hk : KeyOk w.T 4 (D p) k) (h : w.mapRemove p k cx = .ok (rk, rv, w', cx')) :
+    WorldOk D w' cx'.ctr ∧ cx.ctr ≤ cx'.ctr ∧ MapRemovedAt w w' p k rk rv ∧ HandleOk w' p ∧ SigFrame w w' p :=
+  mapRemove_ok H hh hk h
+
+/-- `Array.Get` (also: the mutable iterator arriving at index `i`): no container changes, the
+    element is the list's, every current handle stays current, and the handle of the child handed
+    out is current. -/
+theorem worldOk_arrGet (D : SlabID → DigestFn 4) (w : World) (p : SlabID) (i : Nat) (el : Elem) (w' : World)
+    (ctr : Nat) (H : WorldOk D w ctr) (hh : HandleOk w p) (h : w.arrGet p i = .ok (el, w')) :
+    WorldOk D w' ctr ∧ (∀ z, w'.cont? z = w.cont? z) ∧
+      (∃ a, w.cont? p = some (.arr a) ∧ a.toList[i]? = some el) ∧
+      (∀ z, HandleOk w z → HandleOk w' z) ∧
+      (∀ x, el.pay = .ref x → (w.cont? x).isSome → HandleOk w' x) :=
+  arrGet_ok H hh h
+
+/-- `OrderedMap.Get` -/
+theorem worldOk_mapGet (D : SlabID → DigestFn 4) (w : World) (p : SlabID) (k : MKey) (el : Elem) (w' : World)
+    (ctr : Nat) (H : WorldOk D w ctr) (hh : HandleOk w p) (hk : KeyOk w.T 4 (D p) k)
+    (h : w.mapGet p k = .ok (el, w')) :
+    WorldOk D w' ctr ∧ (∀ z, w'.cont? z = w.cont? z) ∧
+      (∃ m, w.cont? p = some (.map m) ∧ (k, el) ∈ m.toList) ∧
+      (∀ z, HandleOk w z → HandleOk w' z) ∧
+      (∀ x, el.pay = .ref x → (w.cont? x).isSome → HandleOk w' x) :=
+  mapGet_ok H hh hk h
+
+/-- reopening the storage: every container is kept, every closure and index is dropped; the
+    handles of the unreferenced containers (the roots) are current. -/
+theorem worldOk_reopen (D : SlabID → DigestFn 4) (w : World) (ctr : Nat) (H : WorldOk D w ctr) :
+    WorldOk D w.reopen ctr ∧ (∀ z, w.reopen.cont? z = w.cont? z) ∧
+      (∀ z, (∀ q, ¬ Holds w q z) → HandleOk w.reopen z) :=
+  reopen_ok H
+
+/-- `SetType` through a current handle -/
+theorem worldOk_setType (D : SlabID → DigestFn 4) (w : World) (p : SlabID) (ty : Nat) (cx : Ctx) (w' : World)
+    (cx' : Ctx) (H : WorldOk D w cx.ctr) (hh : HandleOk w p) (h : w.setType p ty cx = .ok (w', cx')) :
+    WorldOk D w' cx'.ctr ∧ cx.ctr ≤ cx'.ctr ∧
+      (∃ c c', w.cont? p = some c ∧ w'.cont? p = some c' ∧ c'.storedElems = c.storedElems ∧ c'.vid = c.vid) ∧
+      HandleOk w' p :=
+  setType_ok H hh h
+
+/-! ### 5. Read-through: the crown statement of C10 -/
+
+/-- Any mutation (here: `Array.Insert`; the same follows from the other operation theorems)
+    performed through a current handle to a container `x` that lives inside another container `p`
+    (at any depth, wrapped or not, array or map parent):
+    * `WorldOk` holds afterwards — every ancestor is structurally valid (`worldOk_contOk`);
+    * `x` keeps its value ID and holds the list-level result;
+    * the parent still refers to `x`, and — reading through the parent — the element that refers to
+      `x` has the size of `x`'s NEW form behind its wrappers, `x` being inline exactly when it fits
+      the per-element limit of that slot. -/
+theorem read_through_arrInsert (D : SlabID → DigestFn 4) (w : World) (x p : SlabID) (i : Nat) (v : WVal) (cx : Ctx)
+    (w' : World) (cx' : Ctx) (H : WorldOk D w cx.ctr) (hh : HandleOk w x) (hpx : Holds w p x)
+    (hv : WValOk w x (maxInlineArr w.T) v) (h : w.arrInsert x i v cx = .ok (w', cx')) :
+    WorldOk D w' cx'.ctr ∧ InsertedAt w w' x i v ∧
+      ∃ pc le c', w'.cont? p = some pc ∧ le ∈ pc.slots w'.T ∧ le.2.pay = .ref x ∧ w'.cont? x = some c' ∧
+        c'.vid = x ∧ ∃ wrap, slabIDStorableSize + 2 * wrap ≤ le.1 ∧ le.2.size = slotSize c' wrap ∧
+          c'.isInlined = c'.inlinable (le.1 - 2 * wrap) := by
+  obtain ⟨H', _, hins, _, hsig⟩ := arrInsert_ok H hh hv h
+  obtain ⟨rank0, H0⟩ := H
+  have hpx' : p ≠ x := by
+    intro he
+    obtain ⟨pc, hpc, _⟩ := id hpx
+    have := H0.rank p x hpx (by rw [← he, hpc]; rfl)
+    rw [he] at this
+    omega
+  have hholds := hsig.holds hpx' hpx
+  obtain ⟨pc, le, hpc, hle, hpay⟩ := holds_slot hholds
+  obtain ⟨a, a', e, _, hx', _⟩ := hins
+  obtain ⟨wr, h1, h2, h3⟩ := worldOk_inline_iff_fits H' p pc hpc le.1 le.2 hle x (.arr a') hpay hx'
+  exact ⟨H', ⟨a, a', e, by assumption, hx', by assumption⟩, pc, le, .arr a', hpc, hle, hpay, hx',
+    (worldOk_contOk H' x _ hx').2, wr, h1, h2, h3⟩
+
+/-! ### 6. The hypothesis-laden theorems of `Props/C10.lean`, from world invariants only
+
+`C10.notify_updates_array_parent` takes `hset` (a fact about `Arr.set` for ARBITRARY elements and
+contexts — too strong to be a theorem: elements must respect the inline limit), `hmax` (now part
+of `ClosureOk`) and `hacyc` (acyclicity of the CLOSURE pointers — not an invariant: stale closures
+may form cycles; what is invariant is the acyclicity of the "is an element of" relation, `CRank`).
+`C10.mutIdx_ok_arrInsert` takes list-level facts relative to an abstract array invariant.  Their
+counterparts below only assume world invariants. -/
+
+/-- The notification reaches the parent (ARRAY OR MAP): after `notifyParentIfNeeded` from a mutated
+    container `x` (current handle) that the container `p` holds, `x` has kept its value ID and its
+    data, `p` still holds `x`, and the element of `p` that refers to `x` has the size of `x`'s
+    current form behind its wrappers, `x` being inline exactly when it fits the slot's limit. -/
+theorem notify_updates_parent (D : SlabID → DigestFn 4) (rank : SlabID → Nat) (fuel : Nat) (w : World)
+    (x p : SlabID) (cx : Ctx) (c : Cont) (w' : World) (cx' : Ctx)
+    (H : WorldOkGen D rank (some x) (fun _ => False) w cx.ctr) (hh : HandleOk w x)
+    (hc : w.cont? x = some c) (hp : Holds w p x) (h : notifyParent fuel w x cx = .ok (w', cx')) :
+    ∃ c' pc le, w'.cont? x = some c' ∧ c'.vid = c.vid ∧ c'.storedElems = c.storedElems ∧
+      w'.cont? p = some pc ∧ le ∈ pc.slots w'.T ∧ le.2.pay = .ref x ∧
+      ∃ wrap, slabIDStorableSize + 2 * wrap ≤ le.1 ∧ le.2.size = slotSize c' wrap ∧
+        c'.isInlined = c'.inlinable (le.1 - 2 * wrap) := by
+  obtain ⟨H3, F3, _⟩ := notify_ok D rank (fun _ => False) fuel w x cx w' cx' H hh (fun z hz _ => absurd hz id) h
+  have hself := F3.self
+  rw [hc] at hself
+  obtain ⟨c', hc', hsd⟩ := hself.get_some
+  obtain ⟨pc, le, hpc, hle, hpay⟩ := holds_slot (F3.sig.holds hp)
+  obtain ⟨wr, h1, h2, _, _⟩ := H3.slots p pc hpc le hle x c' hpay hc'
+  obtain ⟨a, b⟩ := h2 (by intro h; cases h)
+  exact ⟨c', pc, le, hc', hsd.vid, hsd.storedElems, hpc, hle, hpay, wr, h1, a, b⟩
+
+/-- `mutableElementIndex` stays correct through `Array.Insert` — no hypothesis about the array
+    operations. -/
+theorem mutIdx_ok_arrInsert (D : SlabID → DigestFn 4) (w : World) (p : SlabID) (i : Nat) (v : WVal) (cx : Ctx)
+    (w' : World) (cx' : Ctx) (H : WorldOk D w cx.ctr) (hh : HandleOk w p)
+    (hv : WValOk w p (maxInlineArr w.T) v) (h : w.arrInsert p i v cx = .ok (w', cx')) : MutIdxOk w' :=
+  worldOk_mutIdxOk (arrInsert_ok H hh hv h).1
+
+/-- value identifiers never change and parent elements stay in sync (`IdsOk`, `ElemSync` of
+    AtreeProofs/WorldInv.lean) through every operation: they are part of `WorldOk`. -/
+theorem ids_and_sync_arrInsert (D : SlabID → DigestFn 4) (w : World) (p : SlabID) (i : Nat) (v : WVal) (cx : Ctx)
+    (w' : World) (cx' : Ctx) (H : WorldOk D w cx.ctr) (hh : HandleOk w p)
+    (hv : WValOk w p (maxInlineArr w.T) v) (h : w.arrInsert p i v cx = .ok (w', cx')) :
+    World.IdsOk w' ∧ ElemSync w' :=
+  ⟨worldOk_idsOk (arrInsert_ok H hh hv h).1, worldOk_elemSync (arrInsert_ok H hh hv h).1⟩
+
+/-! ### 7. Non-vacuity
+
+`AtreeProofs/World/OkScenario.lean`: a world obtained by RUNNING the model (T = 256) — root array
+`R`; map `M` inlined in `R` (array parent); array `A` inlined in `M` behind one wrapper (map
+parent, depth 3) and mutated there; array `B` standalone in `R` after six inserts through its
+handle — satisfies `WorldOk`, by chaining the operation theorems above along the 14 steps of the
+run: at every step `HandleOk`, `WValOk`, `KeyOk` are established (decidable checks). -/
+section NonVacuity
+open Atree.OkScenario
+
+theorem scenario_shape :
+    (t14.1.cont? R).map Cont.pays = some [.ref M, .ref B] ∧
+    (t14.1.cont? M).map Cont.isInlined = some true ∧ (t14.1.cont? M).map Cont.isArr = some false ∧
+    (t14.1.cont? M).map Cont.pays = some [.ref A] ∧
+    (t14.1.cont? A).map Cont.isInlined = some true ∧ (t14.1.cont? A).map Cont.pays = some [.val 1] ∧
+    (t14.1.cont? B).map Cont.isInlined = some false ∧
+    (t14.1.cont? R).map (fun c => c.storedElems.map (·.size)) = some [80, 19] ∧
+    (t14.1.cont? M).map (fun c => c.storedElems.map (·.size)) = some [39] := by
+  have := final_facts
+  exact ⟨this.2.2.2.2.2.1, this.2.2.2.2.2.2.1, this.2.2.2.2.2.2.2.1, this.2.2.2.2.2.2.2.2.1,
+    this.2.2.2.2.2.2.2.2.2.1, this.2.2.2.2.2.2.2.2.2.2.1, this.2.2.2.2.2.2.2.2.2.2.2.1,
+    this.2.2.2.2.2.2.2.2.2.2.2.2.2.1, this.2.2.2.2.2.2.2.2.2.2.2.2.2.2⟩
+
+/-- the final world of the run satisfies the global invariant -/
+theorem scenario_worldOk : WorldOk OkScenario.D t14.1 t14.2.ctr ∧ HandleOk t14.1 B := OkScenario.scenario_worldOk
+
+/-- the step at depth 3 (an insert through `A`, inside the map `M`, inside the array `R`) is an
+    instance of `worldOk_arrInsert` -/
+example : WorldOk OkScenario.D t7.1 t7.2.ctr := ok7.1
+
+/-- reopening, then fetching `M` again through `R`: invariant kept, handle current -/
+theorem scenario_reopen_get :
+    WorldOk OkScenario.D t14.1.reopen t14.2.ctr ∧
+    ∃ el w', t14.1.reopen.arrGet R 0 = .ok (el, w') ∧ el.pay = .ref M ∧ WorldOk OkScenario.D w' t14.2.ctr ∧
+      HandleOk w' M := OkScenario.scenario_reopen_get
+
+/-- `HandleOk` is needed: after reopening, inserting through `A` opened by its own ID (a handle
+    that is not current) succeeds and BREAKS the invariant (the dual-handle findings F2 / F2b). -/
+theorem stale_handle_breaks :
+    ¬ HandleOk t14.1.reopen A ∧ t14.1.reopen.arrInsert A 1 (pl 9) t14.2 = .ok bad ∧
+      ∀ ctr, ¬ WorldOk OkScenario.D bad.1 ctr :=
+  ⟨OkScenario.stale_handle_breaks.1, run_bad, OkScenario.stale_handle_breaks.2⟩
+
+/-- the CLOSURE pointers may form a cycle in a world that satisfies `WorldOk` (a stale closure left
+    behind by a removal, `X ↦ P`, then `P` inserted into `X`): `hacyc` of
+    `C10.notify_updates_array_parent` is not an invariant, `CRank` is. -/
+theorem closure_pointers_may_cycle :
+    WorldOk OkScenario.D u5.1 u5.2.ctr ∧ ¬ ∃ rank : SlabID → Nat, RankOk rank u5.1 :=
+  closure_cycle_in_valid_world
+
+end NonVacuity
 
 end Atree.C10W
